@@ -168,6 +168,23 @@ type ObsTable struct {
 type Obs struct {
 	Tables []ObsTable `json:"tables"`
 	Err    string     `json:"-"`
+	// Same: this read-back is byte-for-byte identical to the previous one of the same trace (written as {"same":true}).
+	// The key samples (random) are carried separately in that case.
+	Same  bool      `json:"-"`
+	Samps []ObsSamp `json:"-"`
+}
+
+type ObsSamp struct {
+	T    j.B    `json:"t"`
+	Samp []Samp `json:"samp"`
+}
+
+func (o Obs) MarshalJSON() ([]byte, error) {
+	if o.Same {
+		return json.Marshal(map[string]interface{}{"same": true, "samps": o.Samps})
+	}
+	type alias Obs
+	return json.Marshal(alias(o))
 }
 
 // Op is one request (and, once executed, its reply and the read-back of the whole state).
